@@ -356,6 +356,8 @@ Definition rstep (s : rstate) (tid : nat) : rres :=
               let o := robj_get s k in
               if ro_live o then done1 (set_obj s k (ro_with_live o false)) tid t RUnit
               else done1 s tid t RX
+          | ITlsWith _ => done1 s tid t RUnit
+          | ILazyGet k => done1 s tid t (RVal (N.of_nat (41 + k)))
           | IPanic => RPanic
           | IExplore | IStopExploring | ISkipBranch => done1 s tid t RUnit
           end
